@@ -27,8 +27,8 @@ RULE = (
     "non-leaf operand."
 )
 ASSUMPTIONS = [
+    "termination is observed per module with a 60 s alarm (typical check: milliseconds); a module exceeding it is reported as no-termination with the pyanalyze frame it was in",
     "programs whose import fails after mutation are discarded (the property is about modules that import successfully)",
-    "termination is observed through the runner's watchdog only (a hang is inconclusive, not a violation)",
 ]
 MAX_ABSTAIN = 0.5
 
@@ -98,10 +98,70 @@ def frame_of(tb_text):
     return name, (":".join(frames[-1]) if frames else "?")
 
 
+CHECK_LIMIT_S = 60
+
+
+class CheckTimeout(BaseException):
+    def __init__(self, where):
+        super().__init__(where)
+        self.where = where
+
+
+class time_limit:
+    """SIGALRM based limit for one check (main thread of a shard process only)."""
+
+    def __init__(self, seconds):
+        self.seconds = seconds
+
+    def __enter__(self):
+        import signal
+        import threading
+
+        self.active = threading.current_thread() is threading.main_thread() and hasattr(signal, "SIGALRM")
+        if not self.active:
+            return self
+
+        def handler(signum, frame):
+            where = "?"
+            f = frame
+            while f is not None:
+                fn = f.f_code.co_filename
+                if "/pyanalyze/" in fn and "/test_" not in fn:
+                    where = f"{fn.rsplit('/', 1)[-1][:-3]}:{f.f_code.co_name}"
+                    break
+                f = f.f_back
+            raise CheckTimeout(where)
+        self.old = signal.signal(signal.SIGALRM, handler)
+        signal.alarm(self.seconds)
+        return self
+
+    def __exit__(self, *exc):
+        import signal
+
+        if self.active:
+            signal.alarm(0)
+            signal.signal(signal.SIGALRM, self.old)
+        return False
+
+
+def c10_stable(src):
+    import re
+
+    return not re.search(r"\b(datetime|time|random|uuid|getpid|secrets|tempfile|urandom)\b", src)
+
+
 def judge_program(src, cfg):
     """Returns ('discard', reason) | ('ok', ndiags, []) | ('fail', ndiags, [(key, what)])."""
     try:
-        res = sut.check_source(src, checker=checker_for(cfg))
+        with time_limit(CHECK_LIMIT_S):
+            res = sut.check_source(src, checker=checker_for(cfg))
+    except CheckTimeout as e:
+        if e.where.startswith(("analysis_lib:make_module", "importer:")):
+            # the module's own import-time code does not finish: not a module that imports successfully
+            return ("discard", "import-does-not-finish")
+        # "checking terminates": a module that normally takes milliseconds is still being checked after
+        # CHECK_LIMIT_S seconds; the frame tells where (replay re-runs it under the same limit)
+        return ("fail", 0, [(f"no-termination|{e.where}", f"check() was still running after {CHECK_LIMIT_S} s in {e.where}")])
     except SyntaxError as e:
         return ("discard", "syntax")
     except BaseException as e:  # import of the module failed: outside the property's domain
@@ -124,6 +184,8 @@ def judge_program(src, cfg):
             if user_code_raised(d.description):
                 return ("discard", "user-code-raises")
             name, where = frame_of(d.message + "\n" + d.description)
+            if "for integer string conversion" in d.description:
+                where = "int-max-str-digits"  # one root cause, many frames: displaying an int of > 4300 digits
             fails.append((f"internal_error|{name}|{where}", f"internal_error: ...{d.description[-300:]}"))
             continue
         if d.code not in ALL_CODES:
@@ -191,6 +253,8 @@ def shards(tier, seed):
     out += [{"mode": "values", "index": i, "examples": 2500 if tier == "quick" else 150000} for i in range(2)]
     out.append({"mode": "baseline"})
     out.append({"mode": "cli", "examples": 10 if tier == "quick" else 300})
+    # systematic single-mutation sweep: every snippet x every mutation operator x 1 [5] site positions
+    out += [{"mode": "sweep", "index": i, "of": 12, "positions": 1 if tier == "quick" else 5} for i in range(12)]
     if tier == "thorough":
         out += [{"mode": "atheris", "index": i, "seconds": 480} for i in range(4)]
     return out
@@ -279,6 +343,37 @@ def run_shard(spec):
                     col.unreproduced += 1
         finally:
             __import__("shutil").rmtree(d, ignore_errors=True)
+        return col.result()
+
+    if mode == "sweep":
+        snips = corpus.snippets()
+        fracs = [((seed * 7 + k * 13) % 20) / 19 for k in range(spec["positions"])]
+        cfgs = ["all", None]
+        n = 0
+        for si, (origin, src0) in enumerate(snips):
+            if si % spec["of"] != spec["index"]:
+                continue
+            for mi, name in enumerate(corpus.MUTATIONS):
+                for frac in fracs:
+                    # vary the position with the snippet and operator so that one run covers many positions
+                    f = (frac + (si * 31 + mi * 17) % 20 / 19) % 1.0
+                    src = corpus.mutate(src0, [(f, name)])
+                    if src is None or not c10_stable(src):
+                        continue
+                    cfg = cfgs[(si + mi) % 2]
+                    r = judge_program(src, cfg)
+                    n += 1
+                    if r[0] == "discard":
+                        col.discarded += 1
+                        continue
+                    col.case(nontrivial_id=src if r[1] else None, label=["route:sweep", f"mut:{name}"])
+                    if r[0] == "fail":
+                        for key, what in r[2]:
+                            col.fail(key, f"{origin} mutated by [{name}]: {what}", {"src": src, "cfg": cfg})
+            if col.out_of_time():
+                break
+        col.extra["sweep_programs"] = n
+        col.extra["exhaustive_bounds"] = ["every repository test snippet x every mutation operator at %d site position(s)" % spec["positions"]]
         return col.result()
 
     if mode == "corpus":
